@@ -319,3 +319,26 @@ func NilEdgeOf(fn *ssa.Function, v ssa.Value) *ssa.BasicBlock {
 	}
 	return nil
 }
+
+// KnownBool reports the truth value boolean v (or a spilled copy of it) is known to have in
+// block at, by a dominating branch edge on v or !v.
+func KnownBool(v ssa.Value, at *ssa.BasicBlock) (val, known bool) {
+	al := ValueAliases(v)
+	for _, b := range at.Parent().Blocks {
+		if len(b.Succs) != 2 {
+			continue
+		}
+		for k := range b.Succs {
+			cv, pol, ok := CondTruth(b, k)
+			if !ok || !EdgeDominates(b, k, at) {
+				continue
+			}
+			for _, a := range al {
+				if cv == a {
+					return pol, true
+				}
+			}
+		}
+	}
+	return false, false
+}
